@@ -766,6 +766,11 @@ func (g *vfGW) apply(evFull string) {
 		g.fake(arg(1)).send(vfPruneRPC(arg(2), 0, vfPXEntries()...))
 	case "pub":
 		g.fake(arg(1)).send(vfPubRPC(g.pbMsg(arg(2))))
+	case "pubgraft":
+		// pubgraft:P:LABEL:T -- ONE RPC frame carrying a payload message and a GRAFT
+		rpc := vfGraftRPC(arg(3))
+		rpc.Publish = append(rpc.Publish, g.pbMsg(arg(2)))
+		g.fake(arg(1)).send(rpc)
 	case "pubdup":
 		// two copies of the same message inside ONE RPC frame
 		g.fake(arg(1)).send(vfPubRPC(g.pbMsg(arg(2)), g.pbMsg(arg(2))))
